@@ -161,10 +161,12 @@ func CheckC19(e *Env) (int, error) {
 		}
 	}
 	cv := map[string]any{
-		"evaluations":                         pairs,
-		"distinct_nontrivial":                 len(a.NonTrivial),
-		"rule":                                "case = one seeded history (pool world: <= 80 API calls over a mutable object pool; sign world: <= 64 signing operations under fault-injecting entropy devices; lookup world: <= 48 steps of raw constant-time table lookups / table refills / destination overwrites through a verif-tagged hook, with tables and destinations placed at 0 or 8 mod 16) executed in BOTH builds (amd64 assembly, purego) from the same tape; the SHA-256 over every step's inputs and outputs must be identical. evaluations = history pairs compared; distinct_nontrivial = distinct history digests in which at least one injected fault fired.",
-		"samples":                             samplesFrom(traced, 2),
+		"evaluations":         pairs,
+		"distinct_nontrivial": len(a.NonTrivial),
+		"rule":                "case = one seeded history (pool world: <= 80 API calls over a mutable object pool; sign world: <= 64 signing operations under fault-injecting entropy devices; lookup world: <= 48 steps of raw constant-time table lookups / table refills / destination overwrites through a verif-tagged hook, with tables and destinations placed at 0 or 8 mod 16) executed in BOTH builds (amd64 assembly, purego) from the same tape; the SHA-256 over every step's inputs and outputs must be identical. evaluations = history pairs compared; distinct_nontrivial = distinct history digests in which at least one injected fault fired.",
+		"samples": e.samplesOrFetch(traced, 2, func() *Job {
+			return &Job{Bin: binA, Variant: "asm", World: "pool", Prop: prop, From: 0, N: 4, Extra: []string{"-trace"}}
+		}),
 		"history_pairs_compared":              pairs,
 		"diverging_pairs":                     len(diverged),
 		"operations_executed":                 a.Ops,
